@@ -47,7 +47,7 @@ ASSUMPTIONS = [
     "lnL values from an incremental and a fresh calculation are compared with |d| <= 1e-9 * (1 + |lnL|); a stale cell on the lattices used changes lnL by > 1e-3",
     "parameter values are compared with relative tolerance 1e-12 (means are summed in set order)",
     "the parameter continuum is replaced by a finite lattice of optimiser values (3 per free parameter, 2 in the widest configurations); nothing is claimed between lattice points",
-    "interruptions are injected by wrapping cell.calc of the explored calculator (first psubs cell, first recycled cell, last cell) to raise ParameterOutOfBoundsError, the exception cogent3's own cells raise",
+    "interruptions are injected by wrapping cell.calc of the explored calculator (first cell depending on the last free parameter, first recycled cell, last cell) to raise ParameterOutOfBoundsError, the exception cogent3's own cells raise",
     "after optimise() the parameter values are read back from the likelihood function (the optimiser's trajectory is not modelled); the check is that lnL equals a new function given those values",
     "model of set_param_rule: scopes per independent_by_default, value None = mean of current values in scope, bounds = widest current bounds of non-constant settings else class defaults, value clipped into bounds",
 ]
@@ -71,13 +71,15 @@ def bounds(tier):
 
 # ----------------------------------------------------------------------------- content digests
 def _dig(h, v, depth=0):
-    if v is None or isinstance(v, (bool, int, str)):
+    if type(v) is float:
+        h.update(b"f" + struct.pack("<d", v))
+    elif v is None or isinstance(v, (bool, int, str)):
         h.update(repr(v).encode())
     elif isinstance(v, (float, numpy.floating)):
         h.update(b"f" + struct.pack("<d", float(v)))
     elif isinstance(v, numpy.ndarray):
-        h.update(f"a{v.dtype}{v.shape}".encode())
-        h.update(numpy.ascontiguousarray(v).tobytes() if v.dtype != object else repr(v.tolist()).encode())
+        h.update(b"a" + v.dtype.char.encode() + repr(v.shape).encode())
+        h.update(v.tobytes() if v.dtype.char != "O" else repr(v.tolist()).encode())
     elif isinstance(v, (list, tuple)):
         h.update(f"l{len(v)}".encode())
         for x in v:
@@ -317,29 +319,31 @@ def calc_configs(tier):
     """(name, model, model kwargs, lf kwargs, free parameters [(par, edge or None)], values per parameter, with_undo)"""
     L3 = [None, 0.6, 1.7]  # None = the default value the calculator starts with
     K3 = [None, 2.5, 0.4]
+    L2, K2 = L3[:2], K3[:2]
+    S3 = [None, 0.5, 3.0]
     out = [
-        {"name": "hky-kappa-ab-c", "model": "HKY85", "free": [["kappa", None], ["length", "ab"], ["length", "c"]], "vals": [K3, L3, L3]},
-        {"name": "hky-a-b-ab", "model": "HKY85", "free": [["length", "a"], ["length", "b"], ["length", "ab"]], "vals": [L3, L3, L3]},
-        {"name": "hky-kappa-a-d", "model": "HKY85", "free": [["kappa", None], ["length", "a"], ["length", "d"]], "vals": [K3, L3, L3]},
-        {"name": "hky-ab-c-d", "model": "HKY85", "free": [["length", "ab"], ["length", "c"], ["length", "d"]], "vals": [L3, L3, L3]},
-        {"name": "hky-kappa-ab", "model": "HKY85", "free": [["kappa", None], ["length", "ab"]], "vals": [K3 + [7.0], L3 + [3.1]]},
-        {"name": "hky-kappa-ab-c-noundo", "model": "HKY85", "free": [["kappa", None], ["length", "ab"], ["length", "c"]], "vals": [K3, L3, L3], "with_undo": False},
-        {"name": "hky-4free", "model": "HKY85", "free": [["kappa", None], ["length", "a"], ["length", "ab"], ["length", "d"]],
-         "vals": [K3[:2], L3[:2], L3[:2], L3[:2]]},
+        {"name": "hky-kappa-ab", "model": "HKY85", "free": [["kappa", None], ["length", "ab"]], "vals": [K3, L3]},
+        {"name": "hky-ab-c", "model": "HKY85", "free": [["length", "ab"], ["length", "c"]], "vals": [L3, L3]},
+        {"name": "hky-a-b", "model": "HKY85", "free": [["length", "a"], ["length", "b"]], "vals": [L3, L3]},
+        {"name": "hky-kappa-ab-c", "model": "HKY85", "free": [["kappa", None], ["length", "ab"], ["length", "c"]], "vals": [K2, L2, L2]},
+        {"name": "hky-a-b-ab", "model": "HKY85", "free": [["length", "a"], ["length", "b"], ["length", "ab"]], "vals": [L2, L2, L2]},
+        {"name": "hky-kappa-ab-noundo", "model": "HKY85", "free": [["kappa", None], ["length", "ab"]], "vals": [K3, L3], "with_undo": False},
         {"name": "gtrg-shape-AG-ab", "model": "GTR", "gamma": True, "free": [["rate_shape", None], ["A/G", None], ["length", "ab"]],
-         "vals": [[None, 0.5, 3.0], K3, L3]},
-        {"name": "gtrg-bprobs-CT-c", "model": "GTR", "gamma": True, "free": [["bprobs", None], ["C/T", None], ["length", "c"]],
-         "vals": [[None, 0.7], K3, L3]},
-        {"name": "gn-AG-CT-a", "model": "GN", "free": [["A>G", None], ["C>T", None], ["length", "a"]], "vals": [K3, K3, L3]},
+         "vals": [S3[:2], K2, L2]},
+        {"name": "gtrg-shape-c", "model": "GTR", "gamma": True, "free": [["rate_shape", None], ["length", "c"]], "vals": [S3, L3]},
+        {"name": "gn-AG-CT-a", "model": "GN", "free": [["A>G", None], ["C>T", None], ["length", "a"]], "vals": [K2, K2, L2]},
     ]
     if tier == "thorough":
         out += [
-            {"name": "hky-4free-3", "model": "HKY85", "free": [["kappa", None], ["length", "a"], ["length", "ab"], ["length", "d"]],
-             "vals": [K3, L3, L3, L3[:2]]},
-            {"name": "gtrg-4free", "model": "GTR", "gamma": True, "free": [["rate_shape", None], ["A/G", None], ["length", "ab"], ["length", "a"]],
-             "vals": [[None, 0.5, 3.0], K3, L3, L3[:2]]},
-            {"name": "hky-all-lengths", "model": "HKY85", "free": [["length", e] for e in ("a", "b", "ab", "c", "d")], "vals": [L3[:2]] * 5},
-            {"name": "gn-3rates-ab", "model": "GN", "free": [["A>G", None], ["C>T", None], ["G>T", None], ["length", "ab"]], "vals": [K3, K3, K3[:2], L3[:2]]},
+            {"name": "hky-kappa-ab-c-333", "model": "HKY85", "free": [["kappa", None], ["length", "ab"], ["length", "c"]], "vals": [K3, L3, L3]},
+            {"name": "hky-a-b-ab-333", "model": "HKY85", "free": [["length", "a"], ["length", "b"], ["length", "ab"]], "vals": [L3, L3, L3]},
+            {"name": "hky-4free", "model": "HKY85", "free": [["kappa", None], ["length", "a"], ["length", "ab"], ["length", "d"]],
+             "vals": [K2, L2, L2, L2]},
+            {"name": "gtrg-shape-AG-ab-333", "model": "GTR", "gamma": True, "free": [["rate_shape", None], ["A/G", None], ["length", "ab"]],
+             "vals": [S3, K3, L3]},
+            {"name": "gn-AG-CT-a-333", "model": "GN", "free": [["A>G", None], ["C>T", None], ["length", "a"]], "vals": [K3, K3, L3]},
+            {"name": "hky-kappa-ab-c-noundo-333", "model": "HKY85", "free": [["kappa", None], ["length", "ab"], ["length", "c"]],
+             "vals": [K3, L3, L3], "with_undo": False},
         ]
     return out
 
@@ -362,11 +366,6 @@ def build_lf4(cfg):
         free_names = {p for p, _ in free}
         # everything that is not listed as free becomes a constant
         for par in lf.get_param_names():
-            if par in ("mprobs",) and par not in free_names:
-                continue
-            defn = lf.defn_for[par]
-            if not getattr(defn, "numeric", False) and par != "bprobs":
-                continue
             if par == "length":
                 for edge in ("a", "b", "ab", "c", "d"):
                     if (par, edge) not in free:
@@ -405,11 +404,9 @@ class CalcSystem:
         names = [c.name for c in probe._cells]
         var = [c.rank for c in probe._cells if not c.is_constant]
         self.var_ranks = var
-        fault_ranks = []
-        for r in var:
-            if names[r] == "psubs":
-                fault_ranks.append(r)
-                break
+        # interruption points: the first cell recomputed when the last optimisable parameter changes,
+        # the first recycled cell, the last cell
+        fault_ranks = [min(probe.opt_pars[-1].consequences)]
         if probe.recycled_cells:
             fault_ranks.append(probe.recycled_cells[0])
         fault_ranks.append(len(probe._cells) - 1)
@@ -424,7 +421,6 @@ class CalcSystem:
         order = []
         used = set()
         for par in calc.opt_pars:
-            scope_edges = {s[0] if isinstance(s, tuple) else s for s in (par.scope or [])}
             pick = None
             for j, (p, e) in enumerate(free):
                 if j in used:
@@ -519,7 +515,19 @@ class CalcSystem:
 
     def model_step(self, info, op, obs, calc):
         if obs[0] != "ok":
-            return info  # an interrupted calculation leaves the inputs where they were
+            # An interrupted calculation cancels the step.  cogent3 may already have taken back the previous
+            # step (its one-deep undo) before the remaining changes were cancelled, so each input is allowed
+            # to be either where it was or where the cancelled step wanted it; which one is read back.
+            if op[0] == "change":
+                req = dict((i, v) for i, v in op[1])
+            else:
+                req = dict(enumerate(op[1]))
+            got = [float(v) for v in calc.get_value_array()]
+            x = list(info)
+            for i, v in req.items():
+                if v != info[i] and close(got[i], self.lattice[i][v], VAL_RTOL) and not close(got[i], self.lattice[i][info[i]], VAL_RTOL):
+                    x[i] = v
+            return tuple(x)
         x = list(info)
         if op[0] == "change":
             for i, v in op[1]:
@@ -584,7 +592,7 @@ class CalcSystem:
         if same:
             parts.append("with no-change entries")
         if fr is not None:
-            parts.append("interruption at " + ["first psubs", "recycled cell", "last cell"][min(fr, 2)] if len(self.fault_ranks) == 3
+            parts.append("interruption at " + ["first dependent cell", "recycled cell", "last cell"][min(fr, 2)] if len(self.fault_ranks) == 3
                          else "interruption injected")
         if not self.with_undo:
             parts.append("with_undo=False")
@@ -1031,7 +1039,7 @@ def shards(tier, seed):
         out.append({"part": "calc", "config": cfg, "max_states": 6000 if tier == "quick" else 40000})
     depth = 2 if tier == "quick" else 3
     of = 32 if tier == "quick" else 64
-    small = calc_configs("quick")[4]
+    small = calc_configs("quick")[0]
     for c in range(of):
         out.append({"part": "fresh", "config": small, "depth": depth, "chunk": c, "of": of})
     nops = len(lf_ops())
